@@ -183,11 +183,27 @@ def build_and_run(repo, cfgname='default', out_dir=None, rlimit=None, seed=None,
            'ptr16': {'batch': True, 'ptr16': True}}[cfgname]
     out_dir = out_dir or os.path.join(VERIF, 'build', 'verus', cfgname)
     os.makedirs(out_dir, exist_ok=True)
-    lines, counts, report = extract.extract(repo, VERIF, cfg)
-    path = os.path.join(out_dir, 'mipidsi_verus.rs')
-    open(path, 'w').write('\n'.join(l.text for l in lines) + '\n')
-    res = run_verus(path, rlimit=rlimit, seed=seed, extra=extra)
-    summ = summarize(res, lines)
+    degraded = []
+    for attempt in range(6):
+        lines, counts, report = extract.extract(repo, VERIF, cfg, extra_external=[('fnbody', k, 'auto: ' + w) for k, w in degraded])
+        path = os.path.join(out_dir, 'mipidsi_verus.rs')
+        open(path, 'w').write('\n'.join(l.text for l in lines) + '\n')
+        res = run_verus(path, rlimit=rlimit, seed=seed, extra=extra)
+        summ = summarize(res, lines)
+        # graceful degradation: a construct Verus' front end rejects inside function F makes F external_body for
+        # this run (its obligations are reported as missing -> UNDECIDED for the properties that need them, never
+        # an alarm), so that the rest of the crate can still be decided.
+        fe = [e for e in summ['errors'] if e['kind'] == 'frontend' and e.get('fn') and e.get('origin') and e['origin'][0] == 'src']
+        new = []
+        for e in fe:
+            k = e['fn']
+            if k not in [d[0] for d in degraded] and k not in [n[0] for n in new]:
+                new.append((k, e['msg'][:160]))
+        if summ.get('verified') is None and new:
+            degraded += new
+            continue
+        break
+    summ['degraded'] = degraded
     summ['counts'] = counts
     summ['report'] = report
     summ['wall'] = res['wall']
